@@ -42,7 +42,11 @@ func (x *searcher) checkProtocol(s, n *State, o buildOpts, res *buildResult) {
 		bad("run-done-count", fmt.Sprintf("%d RunDone events", runDone))
 	}
 	// the requested target is always visited: it may stay silent only if a dependency failed
-	if len(perLabel[o.Target]) == 0 && o.Then == "" {
+	exists := false
+	for _, t := range s.V.targets() {
+		exists = exists || t == o.Target
+	}
+	if len(perLabel[o.Target]) == 0 && o.Then == "" && exists { // (a target that does not exist is not visited)
 		anyFailed := false
 		for _, e := range res.Events {
 			anyFailed = anyFailed || e.Kind == "Failed"
